@@ -63,6 +63,10 @@ CHECKS = {
             "List lengths 0..64 (thorough ..257) x FixedPool in {-1,0,1,2,len-1,len,len+1,1000, absent} x both order modes x 5 duration profiles incl. reversed completion order: result equals Map(f,list) (permutation for RandomOrder), f exactly once per element and on nothing else, observed parallelism <= min(FixedPool,len), no application still running at return, termination (stuck detector); repeated under -race.",
             "Trusted: atomic counters inside f; the stuck detector's three conditions; the race detector sees only executed access pairs.",
             "DESIGN.md section 5, C16"),
+    "C07": ("exploration", "recorded histories: porcupine against a relaxed bounded-FIFO model + exactly-once/order/conservation/bound checkers; hook-directed loader interleavings; stuck detector; Go race detector",
+            "Per (capacity, buffer, loader interval) configuration: short concurrent histories checked for linearizability against the relaxed bounded FIFO model, long runs with thousands of unique values checked for exactly-once, per-producer order, held <= cap+buf at every instant, Count bounds and Count = accepted-delivered at quiescence; the drain after producers stop uses only Poll / TakeWithTimeout / channel receives and reports stranded items by logical loader passes or the stuck detector; directed scenarios park the loader and the callers at hook points; plain ChannelQueue against BoundedFIFO; all repeated under -race.",
+            "Trusted: porcupine and the relaxed model (Empty/Timeout always legal; Full legality by a necessary condition); hook counters as logical time; schedules sampled + a few directed park points.",
+            "DESIGN.md section 5, C07"),
 }
 
 NOT_YET = "check not built yet in this session (runtime monitoring applies; see DESIGN.md section 5)"
